@@ -749,8 +749,8 @@ def classify(s, res=None):
     req = _requested(s['direction'], pd)
     if req is None or len(s['o2']['bases']) != pd:
         return None
-    if _inexact_periodic(s) and 'out of range' in txt:
-        return 'periodic-rounded-ghost-knots-out-of-range'
+    # (`_inexact_periodic` inputs failing with "out of range": repaired -- BSplineBasis.continuity applies the knot
+    #  tolerance to its range test; former class periodic-rounded-ghost-knots-out-of-range)
     if _straddle(s):
         return 'knots-straddling-tolerance-window'
     # periodic bases with n < p+k functions (periodic insert_knot defect of C04/C08).  The labels only take
